@@ -45,6 +45,6 @@ fn dur_gt(a: &Duration, b: &Duration) -> (r: bool) ensures r == (dur_ns(*a) > du
 pub trait Deadline: Sized {
     spec fn into_time_spec(self, now: MonotonicTime) -> MonotonicTime;
     fn into_time(self, now: MonotonicTime) -> (r: MonotonicTime)
-        ensures r == self.into_time_spec(now);
+        ensures r == self.into_time_spec(now);      //@ C08,C01 #deadline-resolved-against-the-current-time
 }
 
